@@ -28,8 +28,8 @@ RemGrid  == IF Dense THEN RemDense ELSE RemBase
 RemShard == {r \in RemGrid : Cardinality({x \in RemGrid : x < r}) % NShards = Shard}
 
 IncGrid == {NotSent, 0, 1, 10, 100, 1000, 2000, 5000, 10000, 60000, 1000000, 10000000}
-MtgGrid == IF Dense THEN {NotSent} \cup 0..100
-           ELSE {NotSent, 0, 1, 2, 3, 4, 5, 8, 10, 16, 20, 25, 30, 40, 50, 64, 99, 100}
+MtgGrid == IF Dense THEN {NotSent} \cup 1..100
+           ELSE {NotSent, 1, 2, 3, 4, 5, 8, 10, 16, 20, 25, 30, 40, 50, 64, 99, 100}
 \* in the domain: 0 .. rem/2;  two values outside it (the formula must still be defined there)
 OvhGrid(r) == LET h == Pos(r) \div 2
               IN  {x \in {0, 1, 10, 30, 50, 100, 300, 1000, h, h - 1, h \div 2} : 0 <= x /\ x <= h} \cup {h + 1, Pos(r) + 1000}
@@ -39,10 +39,8 @@ Sit(r, ownSent, i, m, t, o, other) ==
     [rem |-> r, inc |-> i, mtg |-> m, mt |-> t, ovh |-> o, has |-> <<ownSent, Sent(i), Sent(m), Sent(t), other>>]
 
 Other(i, m) == IF (m + 2 + (Pos(i) % 7)) % 3 = 0 THEN 0 ELSE 1   \* the opponent's clock is sent in 2 of 3 lines
-Main == UNION {{Sit(r, 1, i, m, NotSent, o, Other(i, m)) : i \in IncGrid, m \in MtgGrid, o \in OvhGrid(r)} :
-               r \in RemShard}
-
-\* only the opponent's clock / only a movetime / both a clock and a movetime / nothing
+\* only the opponent's clock / only a movetime / both a clock and a movetime / nothing / movestogo 0 (outside
+\* the domain: the coded formula divides by it)
 Few == IF Shard # 0 THEN {} ELSE
        {Sit(NotSent, 0, i, m, t, o, 1) : i \in {NotSent, 0, 1000}, m \in {NotSent, 0, 1, 40}, t \in {NotSent, 100},
                                          o \in {0, 10}}
@@ -50,6 +48,8 @@ Few == IF Shard # 0 THEN {} ELSE
                                              t \in {NotSent, -5, 0, 1, 100, 1000, 12345, 10000000}, o \in {0, 50}}
        \cup {Sit(r, 1, i, NotSent, t, o, 1) : r \in {0, 200, 1000, 60000}, i \in {NotSent, 1000},
                                              t \in {0, 50, 100, 100000}, o \in {0, 10}}
+       \cup {Sit(r, 1, i, 0, NotSent, o, 1) : r \in {0, 1, 200, 1000, 60000, 10000000}, i \in {NotSent, 0, 1000},
+                                             o \in {0, 10}}
 
 
 VARIABLES sit, phase, lim
@@ -57,7 +57,8 @@ gvars == <<sit, phase, lim>>
 NoLim == [soft |-> QInt(0), hard |-> QInt(0)]
 Idle  == /\ now = 0 /\ nextPoll = 0 /\ stopped = FALSE /\ clk = [rem |-> 0, soft |-> 0, hard |-> 0, t0 |-> 0]
 
-\* written with quantifiers so that TLC enumerates the grid without first building (and sorting) it as one set
+\* Written with quantifiers: TLC evaluates constant definitions eagerly and builds a UNION of record sets by
+\* linear search (quadratic), so the grid is never defined as one set.
 GInit == /\ \/ \E r \in RemShard : \E i \in IncGrid, m \in MtgGrid, o \in OvhGrid(r) :
                  sit = Sit(r, 1, i, m, NotSent, o, Other(i, m))
             \/ sit \in Few
@@ -107,7 +108,12 @@ ASSUME PrintT("@@STAT " \o ToJson([name |-> "grid", v |-> [rems |-> RemShard, fe
 
 ----------------------------------------------------------------------------
 TimedInit == TInit /\ sit = Sit(0, 0, NotSent, NotSent, NotSent, 0, 0) /\ phase = "timed" /\ lim = NoLim
-TimedNext == TNext /\ UNCHANGED gvars
+\* unit ticks only: Advance(dt) is dt steps of Advance(1) through states in which the same polls and boundaries
+\* are enabled, so nothing is lost and the transition count stays linear in MaxPollGap
+TAdvance  == Advance(1) /\ UNCHANGED gvars
+TPoll     == Poll /\ UNCHANGED gvars
+TBoundary == IterationBoundary /\ UNCHANGED gvars
+TimedNext == TAdvance \/ TPoll \/ TBoundary
 TimedSpec == TimedInit /\ [][TimedNext]_<<gvars, tvars>>
-             /\ WF_tvars(\E dt \in 1..MaxPollGap : Advance(dt)) /\ WF_tvars(Poll)
+             /\ WF_tvars(Advance(1)) /\ WF_tvars(Poll)
 =============================================================================
